@@ -555,6 +555,8 @@ func c03Defects() []spDefect {
 		{"ap-flipauth", func(c *spCase, r *RNG) { c.ap.flipAuth = r.Intn(2000) }},
 		{"ap-fliptkt", func(c *spCase, r *RNG) { c.ap.flipTkt = r.Intn(4000) }},
 		{"ap-acrealm", func(c *spCase, r *RNG) { c.ap.aCrealm = "EVIL.REALM" }},
+		{"ap-acrealm-case", func(c *spCase, r *RNG) { c.ap.aCrealm = strings.ToLower(c.ap.crealm) }},
+		{"ap-acrealm-kelvin", func(c *spCase, r *RNG) { c.ap.aCrealm = strings.Replace(c.ap.crealm, "K", "\u212a", 1) }},
 		{"ap-acname", func(c *spCase, r *RNG) { c.ap.aCname = []string{"someoneelse"} }},
 		{"ap-ctime-late", func(c *spCase, r *RNG) { c.ap.ctimeOff = c.ap.skew + time.Microsecond }},
 		{"ap-caddr-match", func(c *spCase, r *RNG) { c.ap.caddr = []types.HostAddress{v4} }},
